@@ -80,6 +80,13 @@ def _install():
         def month_length(year, month):
             if conc(year, month):
                 return real_persian.month_length(year, month)
+            if isinstance(year, int):
+                # concrete year (the parser's default year), symbolic month: the real lengths of that year's months
+                mz = _zi(month)
+                e = z3.IntVal(real_persian.month_length(year, 12))
+                for mm in range(11, 0, -1):
+                    e = z3.If(mz == mm, real_persian.month_length(year, mm), e)
+                return mkint(e)
 
             def make():
                 e = core.fresh_int("esfand")
@@ -121,6 +128,12 @@ def _install():
         def month_length(self):
             if conc(self.y, self.m):
                 return real_hijri.Hijri(self.y, self.m, 1).month_length()
+            if isinstance(self.y, int):
+                mz = _zi(self.m)
+                e = z3.IntVal(real_hijri.Hijri(self.y, 12, 1).month_length())
+                for mm in range(11, 0, -1):
+                    e = z3.If(mz == mm, real_hijri.Hijri(self.y, mm, 1).month_length(), e)
+                return mkint(e)
 
             def make():
                 e = core.fresh_int("hml")
@@ -157,6 +170,8 @@ TEMPLATES = {
     "ymd_time": [("Y", 4), "/", ("m", 2), "/", ("d", 2), " ", ("H", 2), ":", ("M", 2)],
     "ymd_time_s": [("Y", 4), "-", ("m", 2), "-", ("d", 2), " ", ("H", 2), ":", ("M", 2), ":", ("S", 2)],
     "ymd_time_dot": [("Y", 4), "/", ("m", 2), "/", ("d", 2), " ", ("H", 2), ".", ("M", 2)],     # clock time written HH.MM
+    "mdy_slash": [("m", 2), "/", ("d", 2), "/", ("Y", 4)],      # month first (the parsers' default order), year last
+    "mdy_dash_time": [("m", 2), "-", ("d", 2), "-", ("Y", 4), " ", ("H", 2), ":", ("M", 2)],
 }
 
 
